@@ -37,6 +37,17 @@ Theorem C12_rotation_to_stored_next : forall s0 l x,
 Proof. exact step_rotation. Qed.
 Print Assumptions C12_rotation_to_stored_next.
 
+(* ... and exactly what happens to the pair of committees in one step: nothing; or a missing next committee is taken
+   from the update; or a rotation, after which the next committee is what the update carries - NOTHING for a finality or
+   optimistic update, so that the store never keeps the committee it has just rotated to as its "next" one *)
+Theorem C12_committees_step : forall s0 l x,
+  let s := run s0 l in let s' := process s x in let u := st_update x in
+  (s_cur s' = s_cur s /\ s_next s' = s_next s) \/
+  (s_cur s' = s_cur s /\ s_next s = None /\ s_next s' = u_next u) \/
+  (s_next s = Some (s_cur s') /\ s_next s' = u_next u).
+Proof. exact step_committees. Qed.
+Print Assumptions C12_committees_step.
+
 Theorem C12_current_committee_origin : forall l s0,
   s_cur (run s0 l) = s_cur s0 \/
   exists l1 l2, l = l1 ++ l2 /\ s_next (run s0 l1) = Some (s_cur (run s0 l)).
